@@ -49,6 +49,9 @@ type ClientPlan struct {
 	StartAfterCancel bool
 	// clients with the same non-zero SessionGroup share a TLS session cache (resumption)
 	SessionGroup int
+	// the client gives up waiting for a response head / for echoed tunnel bytes after this
+	// many seconds of simulated time (0: it waits for as long as the connection lasts)
+	RespTimeoutS int
 }
 
 // InfoResp: an informational (1xx) response seen before the final one.
@@ -415,6 +418,10 @@ func (c *Client) exec(s *Step) error {
 			want += len(p)
 		}
 		got := make([]byte, want)
+		if c.Plan.RespTimeoutS > 0 {
+			c.tls.SetReadDeadline(time.Now().Add(time.Duration(c.Plan.RespTimeoutS) * time.Second))
+			defer c.tls.SetReadDeadline(time.Time{})
+		}
 		n, err := io.ReadFull(c.br, got)
 		c.W.mu.Lock()
 		c.TunnelEcho = append(c.TunnelEcho, got[:n]...)
@@ -508,6 +515,10 @@ func (c *Client) recordResp(r *RespRecord) {
 }
 
 func (c *Client) h1recv(s *Step) error {
+	if c.Plan.RespTimeoutS > 0 {
+		c.tls.SetReadDeadline(time.Now().Add(time.Duration(c.Plan.RespTimeoutS) * time.Second))
+		defer c.tls.SetReadDeadline(time.Time{})
+	}
 	m := s.Method
 	if m == "" {
 		m = "GET"
